@@ -46,8 +46,8 @@ RULE = ('inputs: tests/test_vec/rot_main.bsp and synthesised BSPs (own encoders,
         'LEAFMINDISTTOWATER has one entry per leaf; leaf area < 256, leaf flags < 128, contents/surface flags < 2^31; '
         'angles in [0,360); physics KV one pair per line; Mesa static-prop flags < 2^32; pakfile a valid zip; '
         'sprp/dprp game lumps always present; parsed entity key order is not compared (mapping semantics); VitaminSource leaf '
-        'bounds are non-negative (the layout stores them unsigned), its brush-side bevel flag is 0/1. An owned lump that was '
-        'non-empty must not come back empty ("looking at a lump never empties it").')
+        'bounds are non-negative (the layout stores them unsigned), its brush-side bevel flag is 0/1. An owned lump is '
+        'judged by its parsed content only: table entries that no view references may vanish when the lump is rebuilt.')
 ASSUMPTIONS = ['pure-Python srctools from /repo/src', 'INFRA and Chaos struct tables restate the reference the library cites',
                'the VitaminSource struct table has no reference here at all: it restates LUMP_LAYOUT_VITAMIN and the is_vitamin '
                'branches of the library, so an error made symmetrically in that reader and writer is not caught; '
@@ -182,9 +182,8 @@ def compare_raw(want: dict, got: dict, owned: set, owned_game: set) -> List[Tupl
         if gcomp != comp and not (name in owned and len(gdata) == 0):
             out.append(('header', {'field': 'lump-compression-flag', 'lump': name, 'want': comp, 'got': gcomp,
                                    'got_head': gdata[:4].hex()}))
-        if name in owned and data and not gdata:
-            # "merely looking at a lump never empties it": holds for owned lumps too, whatever their view makes of them
-            out.append(('emptied', {'lump': name, 'want_len': len(data), 'got_len': 0, 'game_ver': want['game_ver']}))
+        # An owned lump is judged by its parsed content only (the statement's clause for lumps that have a view): entries no
+        # view references - e.g. LEAFFACES entries outside every leaf's run - may disappear when the lump is rebuilt.
         if name not in owned and name != 'GAME_LUMP' and gdata != data:
             out.append(('raw', {'lump': name, 'want_len': len(data), 'got_len': len(gdata), 'was_compressed': comp,
                                 'want_head': data[:24].hex(), 'got_head': gdata[:24].hex()}))
